@@ -316,6 +316,20 @@ func genC02(e *emitter, tier string) {
 		}
 		e.emit(historyCase("routing:"+hg.name, loader, g, steps))
 	}
+	// a caller tensor that overrides an initializer, with the initializer's element count but another rank
+	// (inputs shadowed by initializers are not shape-checked): the caller's tensor stays as it was
+	for _, cs := range [][]int{{}, {1}, {1, 1}, {1, 1, 1}} {
+		for _, is := range [][]int{{}, {1}, {1, 1}} {
+			g := &GraphJ{Inputs: []VInfoJ{{Name: "x", Dt: "f32", Dims: []any{2}}, {Name: "w", Dt: "f32", Dims: toAny(is)}},
+				Inits:   []InitJ{{Name: "w", T: vals("f32", is, 10)}},
+				Nodes:   []NodeJ{{Op: "Add", Ins: []string{"x", "w"}, Outs: []string{"y"}}, {Op: "Mul", Ins: []string{"w", "w"}, Outs: []string{"z"}}},
+				Outputs: []string{"y", "z"}}
+			x := NamedT{"x", vals("f32", []int{2}, 1, 2)}
+			w := NamedT{"w", vals("f32", cs, 5)}
+			e.emit(historyCase("override-single-element", func() (*gonnx.Model, error) { return loadModel(g) }, g,
+				[]HistStep{{Inputs: []NamedT{x, w}}, {Reuse: true}, {Inputs: []NamedT{x}}, {Inputs: []NamedT{x, w}}}))
+		}
+	}
 	// random DAGs, run three times each
 	nd := 40
 	if tier == "thorough" {
@@ -436,4 +450,12 @@ func weightRoutingGraphs() []histGraph {
 	out = append(out, histGraph{"ml-attrs-same-shape", gsc, []NamedT{{"x", smallT("f32", []int{3}, 2)}, {"x2", smallT("f32", []int{1, 3}, 3)}}, []NamedT{{"x", smallT("f32", []int{4}, 2)}, {"x2", smallT("f32", []int{1, 3}, 3)}}, nil})
 	out = append(out, histGraph{"reductions-passthrough", gw, []NamedT{{"x", smallT("f32", []int{2, 3}, 7)}}, []NamedT{{"x", smallT("f32", []int{3, 3}, 7)}}, nil})
 	return out
+}
+
+func toAny(s []int) []any {
+	o := make([]any, len(s))
+	for i, v := range s {
+		o[i] = v
+	}
+	return o
 }
